@@ -451,6 +451,9 @@ func c05(c *wk.Ctx) {
 		json.Unmarshal(d.Desc, &cs)
 		r.Violationf(fmt.Sprintf("C05|path=%s|outcome=process-aborted", cs.Path), json.RawMessage(d.Desc), "hand-off ended the process (exit %d): %s", d.Result.Exit, firstPanicLine(d.Result.Stderr))
 	}
+	if wk.ReplayOne(c, "c05cases", func(idx int) interface{} { return c05extra{Big: idx >= 8000000} }, onDeath) {
+		return
+	}
 	n := c.N(180, 3000)
 	nbig := c.N(2, 8)
 	type job struct {
